@@ -125,6 +125,8 @@ package geojson
 //@   props C05 C07 C08
 //@   requires geometry.PolyShape(P) && Q != nil && Q.Exterior == P.Exterior && Q.Holes == P.Holes
 //@   ensures geometry.PolyShape(Q)
+//@   have SameHoles: forall h int :: geometry.polyHole(Q, h) == geometry.polyHole(P, h)
+//@   have SameExt: geometry.polyExt(Q) == geometry.polyExt(P) && geometry.polyNHoles(Q) == geometry.polyNHoles(P)
 //@ lemma shapeOfRectOrPolygon(o Object)
 //@   props C05 C07 C08
 //@   requires isRectK(o) || (isPolygonK(o) && polyShapeS(polyOf(o)))
